@@ -542,7 +542,7 @@ def pPrimaryKw (c : Ctx) (t : Token) (st : St) : Rle Node st.toks.length :=
             let ⟨e, s3, h3⟩ ← pExpression c s2
             let n ← mkAssignD names e t.pos
             return ⟨n, s3, by omega⟩
-        | _ => .error (mkErr (hostPrefix ++ ": result.items of a node that is no list literal") t.pos)
+        | _ => .error (mkErr "Destructuring assign expected a list of identifiers" t.pos)
       else return ⟨r, s1, Nat.le_of_lt h1⟩
     else if t.value == c!"<<" then ltLe (Nat.le_refl _) (pSetLiteral c t.pos st)
     else if t.value == c!"<<<" then ltLe (Nat.le_refl _) (pMapLiteral c t.pos st)
